@@ -1,5 +1,5 @@
 (** C14 — every parallel index is distinct, complete and gets its own task and variables. *)
-From Furiko Require Import Base.Str Job.Index Proofs.IndexP.
+From Furiko Require Import Base.Str Job.Index Proofs.IndexP Proofs.OdometerP.
 Open Scope list_scope.
 
 (** withCount n expands to exactly 0..n-1 in order; withKeys to the given keys in order *)
@@ -15,12 +15,29 @@ Theorem c14_keys :
 Proof. exact gen_keys. Qed.
 Print Assumptions c14_keys.
 
+(** refinement: the index-vector-with-carry loop of GenerateMatrixCombinations enumerates
+    exactly the lexicographic cartesian product whenever no value list is empty (mixed-radix
+    counter argument, Proofs/OdometerP.v) *)
+Theorem c14_odometer_is_product :
+  forall m, m <> [] -> (forall kv, In kv m -> snd kv <> []) -> gen_matrix m = Some (product m).
+Proof. exact gen_matrix_product. Qed.
+Print Assumptions c14_odometer_is_product.
+
+Theorem c14_matrix_expansion :
+  forall s, ps_count s = None -> ps_keys s = [] -> ps_matrix s <> [] ->
+    (forall kv, In kv (ps_matrix s) -> snd kv <> []) ->
+    gen_indexes s = Some (map IMatrix (product (ps_matrix s))).
+Proof.
+  intros s Hc Hk Hm Hv. unfold gen_indexes. rewrite Hc, Hk.
+  destruct (ps_matrix s) as [|x r] eqn:E; [congruence|]. rewrite <- E in *.
+  now rewrite (gen_matrix_product _ Hm Hv).
+Qed.
+Print Assumptions c14_matrix_expansion.
+
 (** the cartesian product (the specification of withMatrix): every combination picks one
     value per key, in key order; every such choice occurs; the number of combinations is the
     product of the list lengths; combinations are pairwise distinct when the value lists are
-    duplicate-free.  (The refinement "the odometer loop of GenerateMatrixCombinations equals
-    this product" is tied by the parallel stream on every generated matrix and is NOT yet a
-    theorem: c14_matrix is therefore partial.) *)
+    duplicate-free. *)
 Theorem c14_matrix_product_exact :
   forall m c, In c (product m) <->
     List.length c = List.length m /\
